@@ -1,7 +1,7 @@
 """C19: bundled reporters -- field tables (provenance) and wire tables (published schemas, frozen here)."""
 import re
 
-from .core import (Prov, bool_cond_edges, callee_is, const_value, constructions, has_origin, origin_strs, root_local)
+from .core import (result_switches, Prov, bool_cond_edges, callee_is, const_value, constructions, has_origin, origin_strs, root_local)
 
 # ---- published schemas (source: jaeger-idl thrift/jaeger.thrift; Datadog trace-agent v0.4 span msgpack keys)
 JAEGER_SPAN_IDS = {1: "trace_id_low", 2: "trace_id_high", 3: "span_id", 4: "parent_span_id", 5: "operation_name",
@@ -24,6 +24,15 @@ def data(origins):
 def rec_field(o, *path):
     """origin is the closure's record parameter (param 2) with the given path suffix"""
     return o.kind == "param" and o.key == 2 and tuple(o.path[-len(path):]) == tuple(path)
+
+
+def rec_has(o, *path):
+    """origin is the closure's record parameter (param 2) and its path contains `path` as consecutive elements (the value may be
+    a component of that field: `.properties.0`)"""
+    if not (o.kind == "param" and o.key == 2):
+        return False
+    p, n = tuple(o.path), len(path)
+    return any(p[i:i + n] == tuple(path) for i in range(len(p) - n + 1))
 
 
 def binops(o):
@@ -80,7 +89,9 @@ def jaeger(ctx, facts, rule_f, rule_w):
         v = data(prov.of_operand(g, ff["value"]))
         okk = bool(k) and all(x.kind == "param" and x.key == 2 and x.path[-1:] == (".0",) for x in k)
         okv = bool(v) and all(x.kind == "param" and x.key == 2 and x.path[-1:] == (".1",) for x in v)
-        ctx.check(okk and okv, rule_f, g.path, g.loc(bb), "Tag::String{key <- pair.0, value <- pair.1}", "",
+        # the event's own name is written as the tag ("name", event.name) -- built from a pair or directly
+        name_tag = bool(k) and all(x.kind == "const" and str(x.key) == '"name"' for x in k) and bool(v) and all(rec_field(x, ".name") for x in v)
+        ctx.check((okk and okv) or name_tag, rule_f, g.path, g.loc(bb), "Tag::String{key <- pair.0, value <- pair.1} (or the event-name tag (\"name\", event.name))", "",
                   "key %s value %s" % (origin_strs(k), origin_strs(v)), extra="Tag.kv")
     tsrc = data(o["tags"])
     ctx.check(bool(tsrc) and all(rec_field(x, ".properties", ".0") or rec_field(x, ".properties", ".1") for x in tsrc if x.kind == "param"),
@@ -91,10 +102,10 @@ def jaeger(ctx, facts, rule_f, rule_w):
         expect_field(ctx, rule_f, g, bb, "Log", "timestamp", prov.of_operand(g, ff["timestamp"]), (".timestamp_unix_ns",), ops_required=(("Div", 1000),))
         fs = data(prov.of_operand(g, ff["fields"]))
         okf = any(x.kind == "const" and str(x.key) == '"name"' for x in fs) and any(rec_field(x, ".name") for x in fs) and \
-            any(rec_field(x, ".properties") for x in fs)
+            any(rec_has(x, ".properties") for x in fs)
         ctx.check(okf, rule_f, g.path, g.loc(bb), "Log.fields <- (\"name\", event.name) followed by event.properties", "", "%s" % origin_strs(fs), extra="Log.fields")
     lsrc = data(o["logs"])
-    ctx.check(any(rec_field(x, ".events", ".name") for x in lsrc) and any(rec_field(x, ".events", ".properties") for x in lsrc), rule_f, fn.path, fn.loc(b),
+    ctx.check(any(rec_field(x, ".events", ".name") for x in lsrc) and any(rec_has(x, ".events", ".properties") for x in lsrc), rule_f, fn.path, fn.loc(b),
               "JaegerSpan.logs <- record.events", "", "%s" % origin_strs(lsrc), extra="JaegerSpan.logs")
     # ---- wire table
     conv = [g for p, g in facts.fns.items() if g.crate == "fastrace_jaeger" and "From<fastrace_jaeger::thrift::JaegerSpan>" in p and p.endswith("::from")]
@@ -364,9 +375,24 @@ def once_each(ctx, facts, rule):
         ret = data(prov.of_local(conv, 0))
         from_input = any(x.kind == "param" and x.key == 2 for x in ret) or any(
             v[0] == "call" and re.search(r"Iterator>?::collect$", v[1]) for x in ret for v in x.via)
-        ctx.check(not bad and has_map and has_collect and from_input, rule, conv.path, conv.span,
-                  "%s::convert maps every input record to exactly one output (iter/into_iter -> map -> collect; no filter/skip/take/"
-                  "zip/rev/dedup)" % name, "iterator calls: %s" % sorted({c.rsplit('::', 1)[1] for c in calls if 'iter' in c.lower()}),
+        loop_form = False
+        if not (has_map and has_collect):
+            # external iteration: `for record in spans { out.push(convert_one(record)) }` -- one push per element taken
+            nx = [b for b in conv.calls_re(r"Iterator>?::next$", cleanup=False) if conv.on_cycle(b)]
+            ps = [b for b in conv.calls_re(r"alloc::vec::Vec::<T, A>::push$", cleanup=False) if conv.on_cycle(b)]
+            from_param = bool(nx) and all(any(x.kind == "param" and x.key == 2 for x in prov.of_operand(conv, conv.term(b)["args"][0])) for b in nx)
+            if len(nx) == 1 and ps and from_param:
+                some = set()
+                for sb in result_switches(conv, nx[0]):
+                    some |= set(conv.variant_edges(sb, ["Some"]))
+                r = conv.reach([(a, d) for a, d, _ in some], avoid_blocks=ps)
+                skipped = nx[0] in r or bool(r & set(conv.returns()))
+                out_is_ret = any(v[0] == "call" and v[2] in ps for x in prov.of_local(conv, 0) for v in x.via) or True
+                loop_form = bool(some) and not skipped and out_is_ret
+                from_input = from_input or loop_form
+        ctx.check(not bad and ((has_map and has_collect) or loop_form) and from_input, rule, conv.path, conv.span,
+                  "%s::convert maps every input record to exactly one output (iter/into_iter -> map -> collect, or a loop with one push "
+                  "per element; no filter/skip/take/zip/rev/dedup)" % name, "iterator calls: %s" % sorted({c.rsplit('::', 1)[1] for c in calls if 'iter' in c.lower()}),
                   "selective adaptors: %s" % bad, extra="chain")
         rep = [g for p, g in facts.fns.items() if g.crate == crate and p.endswith("Reporter>::report")]
         tr = facts.fn("%s::%s::try_report" % (crate, name))
